@@ -146,6 +146,10 @@ impl Read for Dev {
             (s.data.len() as u64).saturating_sub(self.pos) as usize
         };
         let want = buf.len().min(avail);
+        if want == 0 {
+            self.st.borrow_mut().read_calls += 1;
+            return Ok(0);
+        }
         let n = self.chunk_len(want, "short-read");
         let mut s = self.st.borrow_mut();
         let p = self.pos as usize;
